@@ -190,6 +190,27 @@ Theorem blocks_overflow_refuted :
 Proof. repeat split; vm_compute; reflexivity. Qed.
 Print Assumptions blocks_overflow_refuted.
 
+(* ================================================================== chunked partitions *)
+(* k chunks [n*c/k, n*(c+1)/k), c < k, are an exact partition of [0,n) over the integers ... *)
+Theorem chunks_partition : forall n k, 0 <= n -> 0 < k ->
+  chain 0 n (chunks n k) /\
+  Forall (fun q => 0 <= fst q /\ fst q <= snd q /\ snd q <= n) (chunks n k) /\
+  flat_map idx (chunks n k) = zrange 0 n.
+Proof.
+  intros n k Hn Hk. split; [exact (chunks_chain n k Hn Hk)|]. split; [exact (chunks_each n k Hn Hk)|exact (chunks_cover n k Hn Hk)].
+Qed.
+Print Assumptions chunks_partition.
+
+(* ... but not when the product n*c is evaluated in a 32-bit index type: unsigned n = 3*10^8, 64 chunks (16 threads x 4):
+   chunk 14 comes out as [65625000, 3203636) (empty) and chunk 15 as [3203636, 7891136) (indices run a second time)
+   instead of [65625000, 70312500) and [70312500, 75000000).  rkcommon's dispatch forms no such product
+   (PropertiesSrc.src_dispatch_arith_free, src_dispatch_tbb): the backends receive (0, nTasks) unchanged *)
+Theorem chunk_bounds_wrap_refuted :
+  m_chunk U32 300000000 64 15 = (3203636, 7891136) /\ chunk 300000000 64 15 = (70312500, 75000000) /\
+  m_chunk U32 300000000 64 14 = (65625000, 3203636).
+Proof. exact chunk_wrap_witness. Qed.
+Print Assumptions chunk_bounds_wrap_refuted.
+
 (* ================================================================== parallel_foreach *)
 (* indices [0,count) address count distinct elements base + i*size: every element once, nothing else *)
 Theorem foreach_indices : forall base size count, 0 < size ->
